@@ -671,7 +671,7 @@ func (env *Env) rootInModifies(e ast.Expr) bool {
 	if root == nil {
 		return false
 	}
-	obj := env.info().ObjectOf(root)
+	obj := env.c.resolveAlias(env.info().ObjectOf(root))
 	for _, m := range env.c.spec.Modifies {
 		if o, ok := env.c.specNames[m]; ok && o == obj {
 			return true
@@ -1232,6 +1232,7 @@ func (env *Env) abstractExternalCall(x *ast.CallExpr, fn *types.Func, key string
 		}
 	}
 	c.noteOnce("external call abstracted (results and &arguments arbitrary, no other effect, no panic): " + key)
+	c.abstracted = append(c.abstracted, key)
 	var res []Val
 	for i := 0; i < sig.Results().Len(); i++ {
 		rt := sig.Results().At(i).Type()
@@ -1419,6 +1420,7 @@ func (env *Env) inlineCall(x *ast.CallExpr, fn *types.Func, key string, recvExpr
 	}
 	sub := env.st.Clone()
 	info := c.info
+	var ptrBack [][2]types.Object // callee receiver object -> caller's pointer variable
 	bind := func(nm *ast.Ident, v Val) {
 		if o := info.Defs[nm]; o != nil {
 			sub.vars[o] = c.nameTerm(sub, nm.Name, env.term(v, x.Pos()))
@@ -1429,8 +1431,57 @@ func (env *Env) inlineCall(x *ast.CallExpr, fn *types.Func, key string, recvExpr
 			return Val{}, false
 		}
 		rt := env.typeOf(recvExpr)
-		if _, isPtr := sig.Recv().Type().Underlying().(*types.Pointer); isPtr || rt == nil {
-			return Val{}, false // pointer receivers: effects on the receiver are not summarised
+		if rt == nil {
+			return Val{}, false
+		}
+		if _, isPtr := sig.Recv().Type().Underlying().(*types.Pointer); isPtr {
+			// pointer receiver: summarised when the caller passes a plain pointer variable of its own (a pointer is a
+			// value holding its pointee in this executor) and the body never rebinds the receiver name: what the body
+			// does to the pointee is copied back to the caller's variable on every return path
+			id, isId := unparen(recvExpr).(*ast.Ident)
+			if !isId {
+				return Val{}, false
+			}
+			cobj := info.ObjectOf(id)
+			if _, have := env.st.vars[cobj]; !have || env.st.locs[cobj] != nil {
+				return Val{}, false
+			}
+			if _, ok := rt.Underlying().(*types.Pointer); !ok {
+				return Val{}, false
+			}
+			robj := info.Defs[fi.Decl.Recv.List[0].Names[0]]
+			rebinds := false
+			ast.Inspect(fi.Decl.Body, func(n ast.Node) bool {
+				switch a := n.(type) {
+				case *ast.AssignStmt:
+					for _, l := range a.Lhs {
+						if li, ok := unparen(l).(*ast.Ident); ok && info.ObjectOf(li) == robj {
+							rebinds = true
+						}
+					}
+				case *ast.UnaryExpr:
+					if li, ok := unparen(a.X).(*ast.Ident); ok && a.Op == token.AND && info.ObjectOf(li) == robj {
+						rebinds = true
+					}
+				case *ast.IncDecStmt:
+					if li, ok := unparen(a.X).(*ast.Ident); ok && info.ObjectOf(li) == robj {
+						rebinds = true
+					}
+				}
+				return !rebinds
+			})
+			for _, a := range x.Args {
+				ast.Inspect(a, func(n ast.Node) bool {
+					if ai, ok := n.(*ast.Ident); ok && info.ObjectOf(ai) == cobj {
+						rebinds = true // the same pointer also passed as an argument: aliasing inside the callee
+					}
+					return true
+				})
+			}
+			if robj == nil || rebinds {
+				return Val{}, false
+			}
+			ptrBack = append(ptrBack, [2]types.Object{robj, cobj})
 		}
 		bind(fi.Decl.Recv.List[0].Names[0], *recvV)
 	}
@@ -1463,7 +1514,19 @@ func (env *Env) inlineCall(x *ast.CallExpr, fn *types.Func, key string, recvExpr
 	// run the body in the callee's function context
 	sFi, sSpec, sNamed, sLoop, sCall, sAssign, sSite := c.fi, c.spec, c.named, c.loopOrd, c.callOrd, c.assignOrd, c.siteOrd
 	c.fi = fi
-	c.spec = &FuncSpec{Key: key, Pkg: sSpec.Pkg, Props: sSpec.Props, Loops: map[int]*LoopSpec{}, Calls: map[string][]string{}, Opaque: sSpec.Opaque, OpaqueExc: sSpec.OpaqueExc}
+	// the inlined body runs under the caller's frame: a pointer receiver stands for the caller's own pointer variable
+	c.spec = &FuncSpec{Key: key, Pkg: sSpec.Pkg, Props: sSpec.Props, Loops: map[int]*LoopSpec{}, Calls: map[string][]string{}, Opaque: sSpec.Opaque, OpaqueExc: sSpec.OpaqueExc,
+		Modifies: sSpec.Modifies, FrameProps: sSpec.FrameProps}
+	sRoot := c.rootFi
+	if c.rootFi == nil {
+		c.rootFi = sFi
+	}
+	if c.objAlias == nil {
+		c.objAlias = map[types.Object]types.Object{}
+	}
+	for _, pb := range ptrBack {
+		c.objAlias[pb[0]] = pb[1]
+	}
 	c.named = named
 	c.loopOrd, c.callOrd, c.assignOrd, c.siteOrd = map[ast.Stmt]int{}, map[*ast.CallExpr]string{}, map[ast.Stmt]string{}, map[string]int{}
 	c.inlineDepth++
@@ -1493,8 +1556,21 @@ func (env *Env) inlineCall(x *ast.CallExpr, fn *types.Func, key string, recvExpr
 	}()
 	c.inlineDepth--
 	c.fi, c.spec, c.named, c.loopOrd, c.callOrd, c.assignOrd, c.siteOrd = sFi, sSpec, sNamed, sLoop, sCall, sAssign, sSite
+	c.rootFi = sRoot
+	for _, pb := range ptrBack {
+		delete(c.objAlias, pb[0])
+	}
 	if failed {
 		return Val{}, false
+	}
+	for _, pb := range ptrBack {
+		for _, o := range outs {
+			if t, ok := o.st.vars[pb[0]]; ok && !o.st.dead {
+				if t != o.st.vars[pb[1]] {
+					o.st.vars[pb[1]] = t
+				}
+			}
+		}
 	}
 	// results
 	var res []Val
